@@ -159,12 +159,62 @@ impl<'mir> MirCompilerPass<'_> for InterfaceVerifier<'mir> {
                                     src.ident, f.ident,
                                 );
                             }
+                            let counts = argument_counts(f);
+                            if counts.iter().any(|&n| n > MAX_ARGS_PER_CLASS) {
+                                idlc_errors::unrecoverable!(
+                                    "Interface `{}`, method `{}` needs {:?} (in buffers, out buffers, in objects, out objects) arguments; at most {} of each fit into the counts word",
+                                    src.ident, f.ident, counts, MAX_ARGS_PER_CLASS,
+                                );
+                            }
                         }
                     }
                 }
             }
         }
     }
+}
+
+/// `ObjectCounts` holds the number of arguments of each class in 4 bits.
+const MAX_ARGS_PER_CLASS: usize = 15;
+
+/// Number of (input buffer, output buffer, input object, output object) arguments
+/// an invocation of `f` carries: small values of one direction share one bundle
+/// buffer, every other data parameter is a buffer of its own, big structs pass their
+/// embedded objects as object arguments, object arrays one argument per element.
+fn argument_counts(f: &idlc_mir::Function) -> [usize; 4] {
+    let mut buffers = [0usize; 2];
+    let mut objects = [0usize; 2];
+    let mut has_small = [false; 2];
+    for param in &f.params {
+        let (dir, ty, count) = match param {
+            idlc_mir::Param::In { r#type, .. } => match r#type {
+                ParamTypeIn::Array(t, cnt) => (0, t, Some(cnt)),
+                ParamTypeIn::Value(t) => (0, t, None),
+            },
+            idlc_mir::Param::Out { r#type, .. } => match r#type {
+                ParamTypeOut::Array(t, cnt) => (1, t, Some(cnt)),
+                ParamTypeOut::Reference(t) => (1, t, None),
+            },
+        };
+        match (ty, count) {
+            (Type::Interface(_), Some(cnt)) => {
+                objects[dir] += cnt.map_or(0, |c| usize::from(c.get()));
+            }
+            (Type::Interface(_), None) => objects[dir] += 1,
+            (_, Some(_)) | (Type::UntypedBuffer, None) => buffers[dir] += 1,
+            (Type::Primitive(_) | Type::Struct(Struct::Small(_)), None) => has_small[dir] = true,
+            (Type::Struct(Struct::Big(s)), None) => {
+                buffers[dir] += 1;
+                objects[dir] += s.objects().len();
+            }
+        }
+    }
+    [
+        buffers[0] + usize::from(has_small[0]),
+        buffers[1] + usize::from(has_small[1]),
+        objects[0],
+        objects[1],
+    ]
 }
 
 struct CollisionDetector<'a> {
